@@ -249,11 +249,21 @@ func TooClose(sortedHashes []uint64) bool {
 }
 
 // SpacedOut drops every exact-position id of specs that is closer than MinGapDomain to
-// an id kept before it (generators call it so that drawn universes stay in the domain).
+// an id kept before it, and repeated pool ids (generators call it so that drawn universes
+// stay in the domain).
 func SpacedOut(specs []IDSpec) []IDSpec {
 	var kept []IDSpec
+	for _, i := range SpacedOutIdx(specs) {
+		kept = append(kept, specs[i])
+	}
+	return kept
+}
+
+// SpacedOutIdx is SpacedOut returning the indexes of the ids kept.
+func SpacedOutIdx(specs []IDSpec) []int {
+	var kept []int
 	var pos []uint64 // sorted positions of kept ids
-	for _, sp := range specs {
+	for k, sp := range specs {
 		h := sp.H
 		if !sp.IsExact() {
 			h = RankHash(sp.R)
@@ -270,7 +280,7 @@ func SpacedOut(specs []IDSpec) []IDSpec {
 		pos = append(pos, 0)
 		copy(pos[i+1:], pos[i:])
 		pos[i] = h
-		kept = append(kept, sp)
+		kept = append(kept, k)
 	}
 	return kept
 }
